@@ -2,6 +2,7 @@ import BqVerif.Proofs.Rules
 import BqVerif.Proofs.RulesParam
 import BqVerif.Proofs.RulesComplex
 import BqVerif.Proofs.Accept
+import BqVerif.Model.AcceptGrid
 import BqVerif.Proofs.Structural
 import BqVerif.Proofs.Walsh
 import BqVerif.Proofs.Demultiplex
@@ -187,6 +188,22 @@ example : (scan (fun _ => ()) (fun _ _ => true) (fun _ => true) [0, 1, 2]
     ([(0, 'a'), (1, 'b'), (2, 'c')], ())).1 = [] := by decide
 example : (scan (fun _ => ()) (fun _ _ => false) (fun _ => true) [0, 1, 2]
     ([(0, 'a'), (1, 'b'), (2, 'c')], ())).1 = [(0, 'a'), (1, 'b'), (2, 'c')] := by decide
+
+/-! ### known finding: the tree scan's cycle shift when scanning right to left
+
+`Model/AcceptGrid.lean` transcribes `get_tree_circs` with the code's cycle arithmetic (the harness
+compares it with the real function call by call, IndexErrors included). On the circuit
+`[U@0 | V@(1,0) | W@1 | X@1]` (tags 0–3, one operation per cycle) and the right-to-left chunk
+X, W the candidate meant to drop X and W drops X and V instead, and with the chunk X, W, V the
+function raises. Scanning left to right the same function returns exactly the subsets. -/
+
+open BqVerif.AcceptGrid in
+theorem C10_treescan_right_shift_witness :
+    let g : Grid := [[⟨0, [0]⟩], [⟨1, [1, 0]⟩], [⟨2, [1]⟩], [⟨3, [1]⟩]]
+    (getTreeCircs 4 g [⟨3, 1⟩, ⟨2, 1⟩]).map (·.map tags) = some [[0, 2], [0, 1, 2], [0, 1, 3]] ∧
+    getTreeCircs 4 g [⟨3, 1⟩, ⟨2, 1⟩, ⟨1, 1⟩] = none ∧
+    (getTreeCircs 4 g [⟨0, 0⟩, ⟨1, 1⟩]).map (·.map tags) = some [[2, 3], [1, 2, 3], [0, 2, 3]] := by
+  decide
 
 /-! ### structural passes -/
 
